@@ -91,8 +91,10 @@ func (cfg *Config) init() error {
 	}
 	cfg.initialized = true
 	cfg.applyDefaultGlobals()
-	cfg.applyDenylist()
+	// The replacements first, then the removals: a name that is removed is
+	// not there, also in a module that was put in place of a default one
 	cfg.initErr = cfg.applyOverrides()
+	cfg.applyDenylist()
 	return cfg.initErr
 }
 
